@@ -670,7 +670,7 @@ func (g *gen) newProv(depth int, result int) int {
 	if g.o.Wire {
 		p.Lit, p.Async = false, false
 	}
-	if g.o.Static && len(p.Params) > 0 && g.r.Intn(8) == 0 {
+	if !g.o.Wire && len(p.Params) > 0 && g.r.Intn(8) == 0 {
 		last := g.s.Types[p.Params[len(p.Params)-1]]
 		if last.Kind == KSlice || (last.Kind == KRaw && strings.HasPrefix(last.Raw, "[]")) {
 			p.Variadic = true
